@@ -689,6 +689,13 @@ fn run_batch(rep: &mut Report, cases: &[&Case], base: usize) {
     }
 }
 
+/// Every `stride`-th C23 batch document (used by C28 as corpus).
+pub fn corpus_docs(stride: usize) -> Vec<String> {
+    let all = cases(Tier::Quick);
+    let refs: Vec<&Case> = all.iter().collect();
+    refs.chunks(100).enumerate().filter(|(i, _)| i % stride == 0).map(|(i, c)| doc_text(c, i * 100)).collect()
+}
+
 pub fn run(args: &Args) {
     let mut rep = Report::new(args, Level::ModelChecking);
     rep.set_max_samples(8);
